@@ -240,6 +240,15 @@ func runC10(s *spec.Spec, logPath string) {
 				}
 			}()
 			switch {
+			case lk.Tie != nil:
+				nowT, _ := simrt.PeekClock()
+				ties := scanTies(lk.Base, nowT.In(time.Local).Year(), lk.Tie.Pick)
+				if len(ties) == 0 {
+					ok = false
+					return
+				}
+				m = addSeconds(ties[lk.Tie.Pick%uint64(len(ties))], lk.Tie.OffS)
+				probesC["jie_on_full_hour"]++
 			case lk.Repeat != nil && *lk.Repeat < len(moments):
 				m = moments[*lk.Repeat]
 				probesC["repeat_pillars_other_clock"]++
@@ -409,4 +418,41 @@ func near(t time.Time) bool {
 	a := l.Add(2 * time.Second)
 	b := l.Add(-2 * time.Second)
 	return a.Year() != l.Year() || b.Year() != l.Year()
+}
+
+var tieCache = map[[2]int][]moment{}
+
+// scanTies lists the Jie instants between the base year and the current year (a window of at most 2500 years,
+// placed by pick) that fall exactly on a full hour.
+func scanTies(base, cur int, pick uint64) []moment {
+	lo, hi := base, cur
+	if lo < 1 {
+		lo = 1
+	}
+	if hi > 9990 {
+		hi = 9990
+	}
+	if hi-lo > 2500 {
+		lo = lo + int((pick>>20)%uint64(hi-lo-2500))
+		hi = lo + 2500
+	}
+	key := [2]int{lo, hi}
+	if t, ok := tieCache[key]; ok {
+		return t
+	}
+	var out []moment
+	for y := lo; y <= hi; y++ {
+		func() {
+			defer func() { recover() }()
+			tbl := calendar.NewSolarFromYmd(y, 6, 15).GetLunar().GetJieQiTable()
+			for _, n := range jieNames {
+				j := tbl[n]
+				if j != nil && j.GetMinute() == 0 && j.GetSecond() == 0 && j.GetYear() >= lo {
+					out = append(out, ofSolar(j))
+				}
+			}
+		}()
+	}
+	tieCache[key] = out
+	return out
 }
